@@ -652,12 +652,35 @@ def holds_concretely(goal):
     raise se.Unsupported("clause not decidable on concrete values")
 
 
+def lift_structured(obj, memo):
+    """lift for run-time clause checking: one SV per native object (clauses may compare identities) and exception
+    instances as structured objects (clauses classify error values by class)"""
+    if isinstance(obj, (bool, type(None))) or obj is NotImplemented:
+        return se.lift(obj)
+    k = id(obj)
+    if k in memo:
+        return memo[k][1]
+    if isinstance(obj, BaseException):
+        v = VObj(type(obj), {"args": VTuple([lift_structured(a, memo) for a in obj.args])}, label="native exception")
+    elif type(obj) is tuple:
+        v = VTuple([lift_structured(x, memo) for x in obj])
+    elif isinstance(obj, list):
+        v = se.VList(type(obj), [lift_structured(x, memo) for x in list.__iter__(obj)])
+    elif isinstance(obj, dict) and (type(obj) is dict or type(obj).__module__.startswith("celpy.celtypes")):
+        v = VDict(type(obj), [[lift_structured(k_, memo), lift_structured(x, memo)] for k_, x in dict.items(obj)], dict(getattr(obj, "__dict__", {})))
+    else:
+        v = se.lift(obj)
+    memo[k] = (obj, v)        # keep obj alive: ids must stay unique
+    return v
+
+
 def clause_on_native(con, nargs, kind, val):
-    cs = S({n: se.lift(v) for n, v in nargs.items()})
+    memo = {}
+    cs = S({n: lift_structured(v, memo) for n, v in nargs.items()})
     if kind == "return":
         if con.ret is None:
             return False
-        return holds_concretely(con.ret(cs, se.lift(val)))
+        return holds_concretely(con.ret(cs, lift_structured(val, memo)))
     declared = None
     for K in type(val).__mro__:
         if K in con.exc:
@@ -667,8 +690,8 @@ def clause_on_native(con, nargs, kind, val):
 
 
 def bounded_standin(con, raw, combo, rep, label, limit=4000, seed=0):
-    if con.native is False:
-        return None
+    if con.native is False or getattr(con, "standin", True) is False:
+        return None       # no native thunk, or the clauses talk about the symbolic structure of the result (not checkable on plain values)
     return _bounded_standin(con, raw, combo, rep, label, limit, seed)
 
 
@@ -679,7 +702,7 @@ def _bounded_standin(con, raw, combo, rep, label, limit=4000, seed=0):
     import random
     try:
         pools = [d.samples() for _, d in combo]
-    except NotImplementedError:
+    except (NotImplementedError, AttributeError):
         return None
     total = 1
     for p_ in pools:
